@@ -541,8 +541,18 @@ var mutators = map[string]func(d *docInfo, a, b int) bool{
 	},
 	"unused-variable": func(d *docInfo, a, b int) bool {
 		op := d.doc.Operations[0]
-		op.VariableDefinitions = append(op.VariableDefinitions, &ast.VariableDefinition{Variable: "unusedVar", Type: ast.NamedType("Int", nil)})
-		return true
+		// the name is drawn from the names other documents use (v<N>, the short alphabet), so
+		// that sequences of documents share identifiers; never one this operation declares
+		names := []string{"unusedVar", "v1", "v2", "a", "v3", "b", "v4", "c", "v5", "v6", "d", "v7"}
+		types := []*ast.Type{ast.NamedType("Int", nil), ast.NamedType("String", nil), ast.NamedType("Boolean", nil), ast.ListType(ast.NamedType("Int", nil), nil), ast.NonNullNamedType("ID", nil)}
+		for i := 0; i < len(names); i++ {
+			n := names[(b+i)%len(names)]
+			if op.VariableDefinitions.ForName(n) == nil {
+				op.VariableDefinitions = append(op.VariableDefinitions, &ast.VariableDefinition{Variable: n, Type: types[a%len(types)]})
+				return true
+			}
+		}
+		return false
 	},
 	"duplicate-variable": func(d *docInfo, a, b int) bool {
 		op := d.doc.Operations[0]
@@ -564,6 +574,12 @@ var mutators = map[string]func(d *docInfo, a, b int) bool{
 	},
 	"variable-in-disallowed-position": func(d *docInfo, a, b int) bool {
 		op := d.doc.Operations[0]
+		// innerNonNull reports whether a list type has a non-null item type at some depth
+		var innerNonNull func(t *ast.Type) bool
+		innerNonNull = func(t *ast.Type) bool {
+			return t.Elem != nil && (t.Elem.NonNull || innerNonNull(t.Elem))
+		}
+		variant := b % 6
 		var refs []argRef
 		for _, f := range d.fields {
 			if f.Definition == nil {
@@ -574,10 +590,12 @@ var mutators = map[string]func(d *docInfo, a, b int) bool{
 				if ad == nil {
 					continue
 				}
-				if b%2 == 0 && ad.Type.NonNull && ad.DefaultValue == nil {
-					refs = append(refs, argRef{f, arg, ad})
-				}
-				if b%2 == 1 && ad.Type.Elem != nil {
+				switch {
+				case (variant == 0 || variant == 4) && ad.Type.NonNull && ad.DefaultValue == nil,
+					variant == 1 && ad.Type.Elem != nil,
+					variant == 2 && innerNonNull(ad.Type),
+					variant == 3 && ad.Type.Elem == nil && (ad.Type.Name() == "Int" || ad.Type.Name() == "String" || ad.Type.Name() == "Boolean"),
+					variant == 5 && ad.Type.Elem == nil:
 					refs = append(refs, argRef{f, arg, ad})
 				}
 			}
@@ -587,15 +605,55 @@ var mutators = map[string]func(d *docInfo, a, b int) bool{
 			return false
 		}
 		var vt *ast.Type
-		if b%2 == 0 { // nullable variable in a non-null position without default
+		var def *ast.Value
+		switch variant {
+		case 0: // nullable variable in a non-null position without default
 			c := *r.def.Type
 			c.NonNull = false
 			vt = &c
-		} else { // item-typed variable in a list position
+		case 1: // item-typed variable in a list position
 			c := *r.def.Type.Elem
 			vt = &c
+		case 2:
+			// a list variable whose item type is nullable where the position's is not, at some
+			// depth; a variable default (or an argument default) only excuses the OUTER null
+			var weaken func(t *ast.Type) *ast.Type
+			weaken = func(t *ast.Type) *ast.Type {
+				c := *t
+				if t.Elem != nil {
+					if t.Elem.NonNull && (!innerNonNull(t.Elem) || a%2 == 0) {
+						e := *t.Elem
+						e.NonNull = false
+						c.Elem = &e
+					} else {
+						c.Elem = weaken(t.Elem)
+					}
+				}
+				return &c
+			}
+			vt = weaken(r.def.Type)
+			if a%3 != 0 {
+				vt.NonNull = false
+				def = &ast.Value{Kind: ast.ListValue}
+			}
+		case 3: // a variable of another scalar type (optionally with a default of its own type)
+			other := map[string]string{"Int": "String", "String": "Boolean", "Boolean": "Int"}[r.def.Type.Name()]
+			vt = ast.NamedType(other, nil)
+			vt.NonNull = r.def.Type.NonNull
+			if a%2 == 0 && !vt.NonNull {
+				def = map[string]*ast.Value{"String": strVal("x"), "Boolean": boolVal("true"), "Int": intVal("1")}[other]
+			}
+		case 4: // the default null does not make a nullable variable fit a non-null position
+			c := *r.def.Type
+			c.NonNull = false
+			vt = &c
+			def = &ast.Value{Kind: ast.NullValue, Raw: "null"}
+		case 5: // list-typed variable in an item position
+			c := *r.def.Type
+			c.NonNull = false
+			vt = ast.ListType(&c, nil)
 		}
-		op.VariableDefinitions = append(op.VariableDefinitions, &ast.VariableDefinition{Variable: "posVar", Type: vt})
+		op.VariableDefinitions = append(op.VariableDefinitions, &ast.VariableDefinition{Variable: "posVar", Type: vt, DefaultValue: def})
 		r.arg.Value = varVal("posVar")
 		return true
 	},
